@@ -217,8 +217,11 @@ np_stub.ma = ma
 
 
 # --------------------------------------------------------------------------------------
+MOCK_CALLS = []  # (dotted name, args, kwargs) of every call into a mocked library (matplotlib)
+
+
 class Mock:
-    """matplotlib & co.: every attribute and call yields another Mock"""
+    """matplotlib & co.: every attribute and call yields another Mock; calls are logged"""
 
     def __init__(self, name="mock"):
         object.__setattr__(self, "_name", name)
@@ -231,10 +234,12 @@ class Mock:
         return m
 
     def __call__(self, *a, **k):
+        MOCK_CALLS.append((self._name, a, k))
         return Mock(self._name + "()")
 
     def __iter__(self):
-        return iter((Mock(self._name + "[0]"), Mock(self._name + "[1]")))
+        n = 2 if self._name.endswith(("subplots()", "get_xlim()", "get_ylim()")) else 3
+        return iter(tuple(Mock("%s[%d]" % (self._name, i)) for i in range(n)))
 
     def __getitem__(self, k):
         return Mock(self._name + "[]")
